@@ -4,6 +4,7 @@ import (
 	"fmt"
 	"math/big"
 	"math/rand"
+	"strings"
 
 	"cosmossdk.io/math"
 	dbm "github.com/cosmos/cosmos-db"
@@ -191,7 +192,23 @@ func rewardBigHistory(w *tracew.Writer, seed int64, run, depth int) error {
 		_ = a0
 		w.Emit(Ev{"ev": "block", "run": run, "h": c.Height, "msgOk": msgOk, "imbalance": small(imb),
 			"goatSign": sign(g1), "gasSign": sign(s1), "remainSign": sign(r1), "accruedSign": sign(a1), "nvals": nv,
-			"cometOk": res.CometErr == nil, "cometErr": errStr(res.CometErr), "extreme": extreme})
+			"cometOk": res.CometErr == nil, "cometErr": errStr(res.CometErr), "cometClass": cometClass(res.CometErr), "extreme": extreme})
+		if res.CometErr != nil {
+			return nil // CometBFT refuses the update: a real chain stops here, and so does this history
+		}
 	}
 	return nil
+}
+
+// cometClass names the reason CometBFT gave for refusing a validator-set update.
+func cometClass(err error) string {
+	switch {
+	case err == nil:
+		return ""
+	case strings.Contains(err.Error(), "voting power can't be higher than"):
+		return "validator-power-above-limit"
+	case strings.Contains(err.Error(), "total voting power of resulting valset exceeds max"):
+		return "total-power-above-limit"
+	}
+	return "other"
 }
